@@ -586,7 +586,7 @@ fn profile_step() -> BoxedStrategy<Step> {
 }
 fn stream_step() -> BoxedStrategy<Step> {
     let params = ([gen::moderate(), gen::moderate(), gen::moderate()], gen::moderate(), 0.01f32..0.99, 0u8..3, gen::log_ns(1_000, 3_600_000_000_000), (-2i8..=2, -2i8..=2));
-    (proptest::sample::select(ALL_KINDS.to_vec()), params, t0_strategy(), proptest::collection::vec(ev_strategy([8, 1, 1, 0], gen::log_ns(1_000, 3_600_000_000_000)), 1..24), proptest::collection::vec(prop_oneof![3 => Just(CondEv::F), 3 => Just(CondEv::T), 1 => Just(CondEv::A), 1 => Just(CondEv::E(1))], 1..8))
+    (proptest::sample::select(ALL_KINDS.to_vec()), params, t0_strategy(), proptest::collection::vec(ev_strategy([8, 1, 1, 0], prop_oneof![8 => gen::log_ns(1_000, 3_600_000_000_000), 1 => Just(0i64), 1 => gen::special_ns(1, 3_600_000_000_000)].boxed()), 1..24), proptest::collection::vec(prop_oneof![3 => Just(CondEv::F), 3 => Just(CondEv::T), 1 => Just(CondEv::A), 1 => Just(CondEv::E(1))], 1..8))
         .prop_map(|(kind, (k, x, smoothing, cmd_kind, window, unit), t0, events, cond)| {
             let x = if matches!(kind, Kind::EwmaF32 | Kind::EwmaQuantity) { smoothing } else { x };
             Step::Stream { kind, params: Params { k, x, cmd_kind, window, unit }, t0, events, cond }
